@@ -70,7 +70,11 @@ func runC17(r *core.Run) {
 	for c := 0; c < ncase; c++ {
 		n := []int{1, 2, 3, 5, 9, 20, 60, 170, 330}[rng.Intn(9)]
 		// p: partition key (few values, NULLs, spellings), o: order key (ties, NULLs), v: value column
-		t := genTable(r, "t", []string{"id", "p", "o", "v"}, []colGen{genID, genKeyInt, genInt(4), genHalf}, n)
+		ogen := genInt(4)
+		if rng.Intn(3) == 0 {
+			ogen = genNum(2) // the same number as 2, 2.0, " 2 ", 02: ties of the ORDER BY, hence peers
+		}
+		t := genTable(r, "t", []string{"id", "p", "o", "v"}, []colGen{genID, genKeyInt, ogen, genHalf}, n)
 		if rng.Intn(6) == 0 {
 			for i := range t.Rows { // one partition only
 				t.Rows[i][1] = classify("7", false)
